@@ -477,6 +477,11 @@ impl ReqPlan {
                 rb = rb.param(k, v);
             }
         }
+        // looking at a request does not change it - not before the caller's fields are set, either
+        {
+            let insp = rb.inspect();
+            let _ = (insp.url().as_str().len(), insp.headers().len(), insp.method().as_str().len());
+        }
         for (n, v, append) in &self.headers {
             let name = attohttpc::header::HeaderName::from_bytes(n.as_bytes()).expect("generated header name");
             // (no draw) some values arrive as a typed `HeaderValue` marked sensitive, as callers do for tokens:
